@@ -400,8 +400,10 @@ class TransactionManager(Elaboratable):
         independents = defaultdict[TBody, set[TBody]](set)
 
         for elem in method_map.methods_and_transactions:
+            # callers of a nonexclusive method can run together, so sharing it does not make them independent
+            shared = [] if elem in method_map.methods and elem.nonexclusive else [elem]
             indeps = frozenset[TBody]().union(
-                *(frozenset(method_map.transactions_for(ind)) for ind in chain([elem], elem.independent_list))
+                *(frozenset(method_map.transactions_for(ind)) for ind in chain(shared, elem.independent_list))
             )
             for transaction1, transaction2 in product(indeps, indeps):
                 independents[transaction1].add(transaction2)
